@@ -46,12 +46,12 @@ def install(spec, events):
         counter['n'] += 1
         events.append(ev)
 
-    blank = dict(op='', name='', size=0, data=False, lo=0, hi=0)
+    blank = dict(op='', name='', size=0, data=False, lo=0, hi=0, trunc=True)
     o_init = h5py.File.__init__
 
     def f_init(self, name, mode='r', *a, **k):
         if mode != 'r':
-            tick(dict(blank, op='create'))
+            tick(dict(blank, op='create', trunc=mode in ('w', 'x', 'w-')))
         return o_init(self, name, mode, *a, **k)
     h5py.File.__init__ = f_init
 
@@ -106,6 +106,10 @@ def main():
     spec = json.loads(sys.argv[1])
     events = []
     sigs = payload(spec)
+    if spec.get('preexisting'):
+        # the destination already holds a complete, different signature file (regenerating a file in place)
+        from gambit.sigs import dump_signatures as _dump
+        _dump(spec['out'], payload(dict(spec, seed=spec.get('seed', 1) + 77, n=max(1, spec['n'] - 1))))
     install(spec, events)
     from gambit.sigs import dump_signatures
     kw = {}
